@@ -78,6 +78,9 @@ type Tr struct {
 	knownRtype map[*Term]*Term
 	pathRtype map[*Term]*Term
 	relStructs []*types.Named
+	streamUse int
+	privateRegs []*Term
+	typeFactCache map[string]bool
 	curBind   []Val // bindings of the closure currently being called by contract
 }
 
@@ -150,6 +153,7 @@ func NewTr(P *Program, fn *ssa.Function, c *Contract) *Tr {
 	tr.initComps()
 	tr.maxLen = tr.f.BVu(64, 1<<48)
 	tr.regionRank = map[*Term]int{}
+	tr.typeFactCache = map[string]bool{}
 	tr.frames2 = map[*Term]frameInfo{}
 	tr.f.Frame = func(arr, idx *Term) *Term {
 		fi, ok := tr.frames2[arr]
@@ -696,6 +700,45 @@ func (tr *Tr) run(fn *ssa.Function, args []Val, bind []Val, st *State, reach *Te
 				tr.loopBackEdge(fr, fr.loops[s], b, fr.edge[k])
 			}
 		}
+		// loop exits: `exit` clauses of the loop being left
+		for _, s := range b.Succs {
+			k := [2]int{b.Index, s.Index}
+			if r.IsFalse() || fr.back[k] {
+				continue
+			}
+			for _, li := range fr.loops {
+				if li.spec == nil || len(li.spec.Exits) == 0 || !li.blocks[b] || li.blocks[s] {
+					continue
+				}
+				// `exit` clauses describe leaving the loop to continue after it; a jump straight to a return statement
+				// is covered by `at return` assertions instead
+				if n := len(s.Instrs); n > 0 {
+					if _, isRet := s.Instrs[n-1].(*ssa.Return); isRet {
+						continue
+					}
+				}
+				for i, ex := range li.spec.Exits {
+					env := tr.envFor(fr, li, fr.exit[b])
+					t, err := env.EvalBool(ex.Expr)
+					if err != nil {
+						tr.specError(ex, err)
+						continue
+					}
+					lbl := ex.Label
+					if lbl == "" {
+						lbl = fmt.Sprint(i)
+					}
+					pos := token.NoPos
+					if len(b.Instrs) > 0 {
+						pos = b.Instrs[len(b.Instrs)-1].Pos()
+					}
+					if !pos.IsValid() {
+						pos = fr.fn.Pos()
+					}
+					tr.obligeAt("exit", fmt.Sprintf("L%d.%s", li.ord, lbl), pos, fr.edge[k], t, "on leaving the loop: "+ex.Src)
+				}
+			}
+		}
 	}
 	fr.cur = nil
 	if len(tr.frames) == 1 {
@@ -783,6 +826,11 @@ func (tr *Tr) instr(fr *Frame, in ssa.Instruction) {
 	case *ssa.Alloc:
 		reg := tr.allocTyped(fr.st, x.Type().Underlying().(*types.Pointer).Elem())
 		fr.env[x] = Val{reg, f.BVi(64, 0)}
+		if privateAlloc(x) {
+			// a local variable cell that only this function (and closures it defers or calls itself) can reach:
+			// unknown callees cannot change it
+			tr.privateRegs = append(tr.privateRegs, reg)
+		}
 	case *ssa.Store:
 		p := tr.val(x.Addr)
 		tr.nilCheck(x.Pos(), p[0], "nil pointer dereference (store)")
@@ -893,12 +941,25 @@ func (tr *Tr) instr(fr *Frame, in ssa.Instruction) {
 			vals = append(vals, tr.val(r)...)
 		}
 		if fr.contract != nil && len(fr.contract.AtReturn) > 0 && len(tr.frames) == 1 {
-			env := tr.envFor(fr, nil, fr.st)
+			// entry(e) in a return-site assertion refers to the entry of loop 0 (returns reached before that loop skip such assertions)
+			var li0 *loopInfo
+			for _, li := range fr.loops {
+				if li.ord == 0 && li.entrySt != nil && fr.cur != nil && li.header.Dominates(fr.cur) {
+					li0 = li
+				}
+			}
+			env := tr.envFor(fr, li0, fr.st)
 			env.zeroLocals = true
 			bindResults(env, fr.fn.Signature, vals)
 			for i, a := range fr.contract.AtReturn {
+				if li0 == nil && strings.Contains(a.Src, "entry(") {
+					continue
+				}
 				t, err := env.EvalBool(a.Expr)
 				if err != nil {
+					if li0 == nil && strings.Contains(err.Error(), "entry()") {
+						continue // a return that is not reached through loop 0
+					}
 					tr.specError(a, err)
 					continue
 				}
@@ -1441,4 +1502,64 @@ func (tr *Tr) typeFrameCheck(fr *Frame, pos token.Pos, root ssa.Value, reg *Term
 			}
 		}
 	}
+}
+
+// privateAlloc: the cell's address is only loaded from, stored to, projected, or captured by closures that this function
+// defers or calls directly (never passed to another function, stored in memory or returned).
+func privateAlloc(a *ssa.Alloc) bool {
+	var ok func(v ssa.Value, depth int) bool
+	ok = func(v ssa.Value, depth int) bool {
+		if depth > 6 {
+			return false
+		}
+		refs := v.Referrers()
+		if refs == nil {
+			return true
+		}
+		for _, r := range *refs {
+			switch x := r.(type) {
+			case *ssa.DebugRef:
+			case *ssa.UnOp:
+				if x.Op != token.MUL {
+					return false
+				}
+			case *ssa.Store:
+				if x.Val == v {
+					return false
+				}
+			case *ssa.FieldAddr:
+				if !ok(x, depth+1) {
+					return false
+				}
+			case *ssa.IndexAddr:
+				if !ok(x, depth+1) {
+					return false
+				}
+			case *ssa.MakeClosure:
+				crefs := x.Referrers()
+				if crefs == nil {
+					continue
+				}
+				for _, cr := range *crefs {
+					switch y := cr.(type) {
+					case *ssa.Defer:
+						if y.Call.Value != ssa.Value(x) {
+							return false
+						}
+					case *ssa.Call:
+						if y.Call.Value != ssa.Value(x) {
+							return false
+						}
+					case *ssa.DebugRef:
+					default:
+						return false
+					}
+				}
+			default:
+				return false
+			}
+		}
+		return true
+	}
+	return ok(a, 0)
 }
